@@ -36,7 +36,7 @@ _p("C17", modules=["quic_varint", "quic_frame"], level="proof",
                 "RFC 9000 19.1 PADDING: a maximal run of 0x00 bytes is treated as one frame of that length"],
    trusted_base=[], not_under_contract=["PseudoVersionNegotiationFrame (not an RFC frame type; not in the dispatch table)"])
 
-_p("C16", modules=["quic_pkn"], level="proof",
+_p("C16", modules=["quic_pkn", "quic_session_c"], level="proof",
    level_text="get_full_packet_number is proved equal to RFC 9000 A.3 (transcribed over the integers) for every largest < 2^62, every "
               "encoded length 1-4 and every truncated value, in all 4 packet types x 2 directions; the entry of the packet's own space and "
               "direction becomes max(old, result) and every other entry of both tables is unchanged; PACKET_TYPE_MAP is checked to put "
@@ -76,7 +76,7 @@ _p("C14", modules=["cipher_suites"], level="proof", extra=[_c14_extra],
    design_ref="DESIGN.md 4 C14", explanation="", assumptions=[], trusted_base=["specs/iana_tls_cipher_suites.json is a faithful copy of the IANA registry"],
    not_under_contract=["Decryptor.decrypt dispatch totality (dispatch_total) is part of C01's contracts"])
 
-_p("C10", modules=["ports"], level="proof",
+_p("C10", modules=["ports", "main_run"], level="proof",
    level_text="Each sentence of the property is a postcondition proved for all ports and ALL port maps (an uninterpreted map): both output builders compute "
               "server_port' = keep ? p : (p in map ? map[p] : 8080) and leave the client port alone; get_port_map turns 'a:b' items into {a: b}; bare -m stores "
               "['443:8080'] and clears keep_original_ports; the real add_argument/set_defaults calls give -m the SUPPRESS default and keep_original_ports=True; "
@@ -201,7 +201,7 @@ _p("C04", modules=["demux", "ports", "keylog", "framing"], level="other",
    not_under_contract=["QuicSession.handle_packet's own CID learning (C02)"])
 
 
-_p("C15", modules=["keys"], level="proof",
+_p("C15", modules=["keys", "quic_session_c"], level="proof",
    technique="contract-based deductive verification with the cryptographic primitives as uninterpreted functions; per parameter class all PRF loops unroll completely",
    level_text="For all secrets and randoms (symbolic) and every parameter class (12 cipher classes x MAC/PRF hashes; 18 representative suites x valid versions x key-log "
               "label for the installed state): the real key_derivator functions return exactly the RFC 6101 / 2246 / 5246 / 8446 schedules (master secret, key block, "
